@@ -96,7 +96,8 @@ pub fn code_ret_const(id: u32, slot: usize, filler: u8) -> Vec<u8> {
     v
 }
 
-pub type Fn0 = unsafe extern "C" fn() -> i32;
+/// Rust ABI on purpose: a fake reached through the target may panic and unwind through the caller
+pub type Fn0 = unsafe fn() -> i32;
 pub unsafe fn call0(addr: usize) -> i32 {
     let f: Fn0 = std::mem::transmute(addr);
     f()
